@@ -2456,3 +2456,26 @@ for _k in ("core::slice::iter::<impl std::iter::IntoIterator for &'a [T]>::into_
            "alloc::vec::<impl std::iter::IntoIterator for &'a std::vec::Vec<T, A>>::into_iter",
            "std::vec::<impl std::iter::IntoIterator for &'a std::vec::Vec<T, A>>::into_iter"):
     TABLE[_k] = into_iter_ref
+
+
+# ---- char class predicates that are one closed range: the same 'inrange' predicate RangeInclusive::contains produces, so the
+# range refinement on the taken branch and the notation decision tables treat both spellings alike
+def _char_in_range(lo, hi):
+    def h(I, st, fr, t, a):
+        x = I.deref(st, a[0]) if isinstance(a[0], Ref) else a[0]
+        if isinstance(x, BV) and x.known():
+            return (TRUE if lo <= x.uval() <= hi else FALSE), st
+        I.cur_pc = st.pc
+        rx = I.rng(x)
+        if rx and rx[0] >= lo and rx[1] <= hi:
+            return TRUE, st
+        if rx and (rx[1] < lo or rx[0] > hi):
+            return FALSE, st
+        return boolv(B.atom_bit(B.atom('inrange', (x, lo, hi), payload=(x, lo, hi)))), st
+    return h
+
+
+for _nm, _lo, _hi in (('is_ascii_digit', 48, 57), ('is_ascii_lowercase', 97, 122), ('is_ascii_uppercase', 65, 90),
+                      ('is_ascii', 0, 127)):
+    for _pre in ('core', 'std'):
+        TABLE['%s::char::methods::<impl char>::%s' % (_pre, _nm)] = _char_in_range(_lo, _hi)
